@@ -139,12 +139,13 @@ PROPS = {
         ]
 },
     "C12": {
-        "claim": "The key id is by definition a function of (type, scheme, hash-algorithm list, material); Lean proves that the hashed preimage determines the description (hex and DER wrapper injective; PEM/base64 as an explicit hypothesis), the SPKI export/import round trip for all three algorithms, re-export of every standard SPKI unchanged, the hex round trip, and that a parsed key table only maps an id to the key with that intrinsic id (discharging the hypothesis of C02/C15). The model's own SHA-256, base64, PEM and DER recompute every key id and SPKI of the key pool and are compared with the library; constructors (raw, DER, PEM, private, JSON) must give equal ids; standard SPKIs must import and re-export unchanged; DER mutations are compared accept/reject.",
-        "level_note": "Trusted: Lean kernel; SHA-256 collision resistance for 'distinct keys have distinct ids'; the pem crate (hypothesis hpem); derp's DER reader as modelled in readTlv (validated on mutated inputs); openssl-written fixtures as the standard for RSA/ECDSA SPKI.",
+        "lean_modules": ["InTotoModel.Props.C12", "InTotoModel.Props.C12Pem"],
+        "claim": "The key id is by definition a function of (type, scheme, hash-algorithm list, material); Lean proves that the hashed preimage determines the description (hex, DER wrapper and PEM writer injective - the PEM text the library writes reads back, through a model of the pem crate's reader with canonical base64, as exactly the DER bytes), the SPKI export/import round trip for all three algorithms, re-export of every standard SPKI unchanged, the hex round trip, and that a parsed key table only maps an id to the key with that intrinsic id (discharging the hypothesis of C02/C15). The model's own SHA-256, base64, PEM and DER recompute every key id and SPKI of the key pool and are compared with the library; constructors (raw, DER, PEM, private, JSON) must give equal ids; standard SPKIs must import and re-export unchanged; DER mutations are compared accept/reject.",
+        "level_note": "Trusted: Lean kernel; SHA-256 collision resistance for 'distinct keys have distinct ids'; the hand-written model of the pem crate's reader and of canonical base64 (Model/Pem.lean, compared with pem::parse on written and edited texts); derp's DER reader as modelled in readTlv (validated on mutated inputs); openssl-written fixtures as the standard for RSA/ECDSA SPKI.",
         "technique": 'Lean 4 theorems about an executable model + model/implementation correspondence check (differential run with property oracle)',
-        "rule": "ops = keyid(type,scheme,algs,material) recomputed by the model for every pool key and constructor variant, spki_enc / spki_dec on exported, standard, fixture and mutated DER, sha256 on random inputs of all lengths 0..199; oracles on constructors, JSON round trip, key tables filed under wrong ids; distinct = distinct op; non-trivial = DER longer than 10 bytes / every keyid op",
-        "trusted_base": ["pem 3 / base64 (hypothesis hpem in c12_preimage_determines_key; differential)", "derp 0.0.15 DER reader/writer modelled in Model/KeyId.lean (differential incl. mutations)", "SHA-256: Model/Sha256.lean is executable and compared with ring; nothing is proved about it"],
-        "partial": ["PEM/base64 injectivity is a hypothesis; RSA key ids additionally rely on it"],
+        "rule": "ops = keyid(type,scheme,algs,material) recomputed by the model for every pool key and constructor variant, spki_enc / spki_dec on exported, standard, fixture and mutated DER, pem_dec on written, CRLF, edited and random-body PEM texts, sha256 on random inputs of all lengths 0..199; oracles on constructors, JSON round trip, key tables filed under wrong ids; distinct = distinct op; non-trivial = DER longer than 10 bytes / every keyid op",
+        "trusted_base": ["pem 3.0.6 / base64 0.22 as modelled in Model/Pem.lean (pem_dec differential)", "derp 0.0.15 DER reader/writer modelled in Model/KeyId.lean (differential incl. mutations)", "SHA-256: Model/Sha256.lean is executable and compared with ring; nothing is proved about it"],
+        "partial": ["SHA-256 is executable and compared, nothing is proved about it; ring's validation of key material is not modelled"],
         "assumptions": COMMON_ASSUME + ["'the same however obtained' is read as 'a function of the four components': raw-bytes constructors use an absent hash-algorithm list, SPKI/PKCS#8 ones [sha256, sha512], by design of the library"],
     },
     "C13": {
